@@ -468,6 +468,14 @@ func registerEnv(m *Machine) {
 		return arr
 	}
 	// randomness
+	I["(*crypto/rand.reader).Read"] = func(m *Machine, fr *frame, a []Value, _ *ssa.CallCommon) Value {
+		buf := a[1].(Slice)
+		bs := m.freshBytes("env:rand", len(buf.V))
+		for i := range buf.V {
+			m.store(&buf.V[i], bs[i])
+		}
+		return Tuple{c.BV(uint64(len(buf.V)), 64), Iface{}}
+	}
 	I["crypto/rand.Read"] = func(m *Machine, fr *frame, a []Value, _ *ssa.CallCommon) Value {
 		buf := a[0].(Slice)
 		bs := m.freshBytes("env:rand", len(buf.V))
